@@ -265,8 +265,10 @@ LEVELS = [
 
 # (upper, lower) pairs used by the content generator: principal quantum numbers for the hydrogen style,
 # level indices (also two-digit ones) otherwise
-_PAIRS_H = [(3, 2), (4, 2), (2, 1), (5, 3), (10, 9), (12, 2), (7, 6)]
-_PAIRS_X = [(3, 1), (6, 5), (11, 12), (9, 7), (10, 8), (4, 1), (7, 6)]
+_PAIRS_H = [(3, 2), (4, 2), (2, 1), (5, 3), (10, 9), (12, 2), (7, 6), (5, 2), (6, 2), (3, 1), (4, 3), (8, 7)]
+_PAIRS_X = [(3, 1), (6, 5), (11, 12), (9, 7), (10, 8), (4, 1), (7, 6), (2, 1), (5, 1), (12, 6), (8, 2), (10, 3)]
+PAIR_ABSENT_H = (9, 8)         # transitions never used by content_adf15: for index-table entries without a data block
+PAIR_ABSENT_X = (12, 11)
 _TYPES = ["EXCIT", "CHEXC", "RECOM"]
 
 
@@ -288,6 +290,8 @@ def content_adf15(nne, nte, nblocks, style="hydrogen", types="mixed"):
         # every cell of a block gets a distinct three-digit mantissa (1PE8.2 keeps three digits); blocks differ by decade
         pec = (1.0 + ((i * nte + j) % 900) / 100.0) * 10.0 ** (-9 - (k % 6))
         blocks.append({"wavelength": 1215.2 + 345.7 * (up * 13 + lo), "upper": up, "lower": lo, "type": typ, "ne": ne, "te": te, "pec": pec})
+    if len(set((b["type"], b["upper"], b["lower"]) for b in blocks)) != len(blocks):
+        raise ValueError("content_adf15: (type, transition) must be unique within a file (at most %d blocks of one type)" % len(pairs))
     return blocks
 
 
